@@ -770,12 +770,16 @@ theorem recovers_after_raise_fails_pinned : ¬ recovers_after_raise_full (initPi
 inductive SessOp where
   | recv        -- the message loop spawns `_throttled_request` for a request / notification
   | finish      -- one `_throttled_request` task is done (reply sent)
+  | cancelled   -- one handler task is ended from outside (the group cancels it after the loop
+                -- task ended, `processing_timeout`, an external `cancel()`): it leaves `_pending`
+                -- like one that finished - running or still queued for a slot alike
   | loopExit    -- the message-loop task ends (connection lost)
   deriving Repr, DecidableEq
 
 def Sess.step (s : Sess) : SessOp → Sess
   | .recv => if s.loopAlive then { s with active := s.active + 1 } else s
   | .finish => { s with active := s.active - 1 }
+  | .cancelled => { s with active := s.active - 1 }
   | .loopExit => { s with loopAlive := false }
 
 def Sess.run (s : Sess) : List SessOp → Sess
@@ -790,6 +794,7 @@ def recvs : List SessOp → Nat
 def finishes : List SessOp → Nat
   | [] => 0
   | .finish :: r => finishes r + 1
+  | .cancelled :: r => finishes r + 1        -- ended by cancellation is ended
   | _ :: r => finishes r
 
 /-- a history of a live session: the loop task does not end, and a task can only finish if one
@@ -798,6 +803,7 @@ def Sess.wf (s : Sess) : List SessOp → Prop
   | [] => True
   | .recv :: r => Sess.wf (s.step .recv) r
   | .finish :: r => 0 < s.active ∧ Sess.wf (s.step .finish) r
+  | .cancelled :: r => 0 < s.active ∧ Sess.wf (s.step .cancelled) r
   | .loopExit :: _ => False
 
 theorem unanswered_run (ops : List SessOp) : ∀ (s : Sess), s.loopAlive = true → s.wf ops →
@@ -827,18 +833,50 @@ theorem unanswered_run (ops : List SessOp) : ∀ (s : Sess), s.loopAlive = true 
       have h2 := this.2
       simp only [] at h2
       omega
+    | cancelled =>
+      obtain ⟨hpos, hw'⟩ := hw
+      have hs : s.step .cancelled = { s with active := s.active - 1 } := rfl
+      have := ih (s.step .cancelled) (by rw [hs]; exact h) hw'
+      simp only [Sess.run, recvs, finishes]
+      rw [hs] at this ⊢
+      refine ⟨this.1, ?_⟩
+      have h2 := this.2
+      simp only [] at h2
+      omega
     | loopExit => exact absurd hw (by simp [Sess.wf])
 
 /-- **Unanswered-request count** (session layer; partial: the TaskGroup bookkeeping
 `_pending` = live member tasks is C09's invariant and is assumed here).  For every history of a
-live session (requests/notifications received, handler tasks finishing — only tasks that exist
-can finish): `max(0, len(_pending) − 1)` equals the number of received requests and notifications
+live session (requests/notifications received, handler tasks finishing **or being cancelled** —
+processing timeout, external cancel; only tasks that exist can end): `max(0, len(_pending) − 1)` equals the number of received requests and notifications
 minus the number whose handling has finished. -/
 theorem unanswered_count (ops : List SessOp) (hw : (Sess.mk true 0).wf ops) :
     (Sess.run ⟨true, 0⟩ ops).unanswered + finishes ops = recvs ops ∧ finishes ops ≤ recvs ops := by
   obtain ⟨h1, h2⟩ := unanswered_run ops ⟨true, 0⟩ rfl hw
   simp only [Sess.unanswered, Sess.pending, h1, ↓reduceIte] at *
   omega
+
+/-- **… and after the connection is gone**: once the message loop has ended (any earlier
+well-formed history) and every handler task still alive — running or queued for a slot — has
+been cancelled by the task group, the count is 0: nothing stays stuck (whatever happened before). -/
+theorem unanswered_after_teardown (ops : List SessOp) :
+    let s := Sess.run ⟨true, 0⟩ ops
+    (Sess.run s (.loopExit :: List.replicate s.active .cancelled)).unanswered = 0 ∧
+    (Sess.run s (.loopExit :: List.replicate s.active .cancelled)).active = 0 := by
+  intro s
+  have key : ∀ (a : Nat) (t : Sess), t.loopAlive = false → t.active = a →
+      (Sess.run t (List.replicate a .cancelled)).active = 0 ∧
+      (Sess.run t (List.replicate a .cancelled)).loopAlive = false := by
+    intro a
+    induction a with
+    | zero => intro t h1 h2; exact ⟨h2, h1⟩
+    | succ a ih =>
+      intro t h1 h2
+      simp only [List.replicate_succ, Sess.run]
+      exact ih (t.step .cancelled) h1 (by show t.active - 1 = a; omega)
+  obtain ⟨k1, k2⟩ := key s.active (s.step .loopExit) rfl rfl
+  simp only [Sess.run]
+  exact ⟨by simp [Sess.unanswered, Sess.pending, k1, k2], k1⟩
 
 /-- what the formula gives once the loop task is gone (only between connection loss and the
 cancellation of the remaining handlers — never at a quiescent point of a live session) -/
@@ -884,6 +922,9 @@ example : exitsOnly (run (init 3) [.enter 0, .enter 1, .enter 2, .enter 3, .ente
   ⟨⟨by decide, by decide, by decide, trivial⟩, by decide⟩
 -- hypotheses of `exit_progress` are satisfiable
 example : (run (init 1) [.enter 0, .enter 1]).1.waiters ≠ [] ∧ 0 ∈ (run (init 1) [.enter 0, .enter 1]).1.holders :=
+  ⟨by decide, by decide⟩
+example : (Sess.run ⟨true, 0⟩ [.recv, .recv, .recv, .finish, .cancelled]).unanswered = 1 ∧
+    (Sess.run ⟨true, 0⟩ [.recv, .recv, .recv, .finish, .loopExit, .cancelled, .cancelled]).unanswered = 0 :=
   ⟨by decide, by decide⟩
 example : (Sess.run ⟨true, 0⟩ [.recv, .recv, .finish, .recv]).unanswered = 2 ∧
     (Sess.mk true 0).wf [.recv, .recv, .finish, .recv] :=
